@@ -951,10 +951,19 @@ func (cs *ContractSet) parseContractLines(file, pkgPath string, lines []string, 
 					return fmt.Errorf("%s:%d: %s needs before|after \"anchor\"", file, s.line, word)
 				}
 				r2 = strings.TrimSpace(r2)
-				if !strings.HasPrefix(r2, "\"") {
+				// the anchor is delimited by double quotes, or by backquotes when the
+				// statement text itself contains double quotes
+				delim := "\""
+				if strings.HasPrefix(r2, "`") {
+					delim = "`"
+				}
+				if !strings.HasPrefix(r2, delim) {
 					return fmt.Errorf("%s:%d: anchor string expected", file, s.line)
 				}
-				end := strings.Index(r2[1:], "\"")
+				end := strings.Index(r2[1:], delim)
+				if end < 0 {
+					return fmt.Errorf("%s:%d: unterminated anchor string", file, s.line)
+				}
 				anchor := r2[1 : 1+end]
 				body := strings.TrimSpace(r2[2+end:])
 				c, err := mk(word, body)
